@@ -9,7 +9,7 @@ import subprocess
 import sys
 
 V = os.path.dirname(os.path.abspath(__file__))
-sys.path.insert(0, '/repo')
+sys.path.insert(0, os.environ.get('VERIF_REPO', '/repo'))
 sys.path.insert(0, V)
 import z3
 print('z3', z3.get_version_string())
